@@ -756,20 +756,14 @@ func init() {
 	// ---- sort ------------------------------------------------------------------------------------------
 	reg("sort.Strings", "in-place sort: contents become an unspecified permutation (fresh array of the same length)", func(x *Exec, st *State, ci *callInfo, a []Val) Val {
 		if sl, ok := a[0].(*SliceV); ok && sl.Back >= 0 {
-			st.Heap[sl.Back] = x.havocLike(st, st.Heap[sl.Back], sl.Back)
-			if st.Written != nil {
-				st.Written[sl.Back] = true
-			}
+			x.sortHavoc(st, sl)
 		}
 		return nil
 	})
 	reg("sort.Slice", "in-place sort: contents become an unspecified permutation (fresh array of the same length)", func(x *Exec, st *State, ci *callInfo, a []Val) Val {
 		if iv, ok := a[0].(*IfaceV); ok {
 			if sl, ok := iv.V.(*SliceV); ok && sl.Back >= 0 {
-				st.Heap[sl.Back] = x.havocLike(st, st.Heap[sl.Back], sl.Back)
-				if st.Written != nil {
-					st.Written[sl.Back] = true
-				}
+				x.sortHavoc(st, sl)
 			}
 		}
 		return nil
@@ -792,6 +786,29 @@ func init() {
 		x.e.declareFun("uf_validdenom", "(String) Bool")
 		return &ErrV{IsNil: app(SBool, "uf_validdenom", tt(a[0]))}
 	})
+}
+
+// sortHavoc: an in-place sort leaves a permutation of the old contents: new[j] = old[p(j)] with p a bijection of
+// the slice's index range (p and its inverse are fresh functions per call). The order itself is not modelled.
+func (x *Exec) sortHavoc(st *State, sl *SliceV) {
+	old, isT := st.Heap[sl.Back].(T)
+	st.Heap[sl.Back] = x.havocLike(st, st.Heap[sl.Back], sl.Back)
+	if st.Written != nil {
+		st.Written[sl.Back] = true
+	}
+	nw, isT2 := st.Heap[sl.Back].(T)
+	if !isT || !isT2 || !strings.HasPrefix(old.So, "(Array Int ") {
+		return
+	}
+	x.e.nFresh++
+	p := fmt.Sprintf("perm!%d", x.e.nFresh)
+	q := fmt.Sprintf("pinv!%d", x.e.nFresh)
+	x.e.declareFun(p, "(Int) Int")
+	x.e.declareFun(q, "(Int) Int")
+	lo, hi := sl.Off.S, Add(sl.Off, sl.Len).S
+	st.assume(T{S: fmt.Sprintf("(forall ((j Int)) (! (=> (and (<= %s j) (< j %s)) (and (= (select %s j) (select %s (%s j))) (<= %s (%s j)) (< (%s j) %s) (= (%s (%s j)) j))) :pattern ((select %s j))))", lo, hi, nw.S, old.S, p, lo, p, p, hi, q, p, nw.S), So: SBool}, "sorted slice is a permutation (new -> old)")
+	st.assume(T{S: fmt.Sprintf("(forall ((i Int)) (! (=> (and (<= %s i) (< i %s)) (and (= (select %s i) (select %s (%s i))) (<= %s (%s i)) (< (%s i) %s) (= (%s (%s i)) i))) :pattern ((select %s i))))", lo, hi, old.S, nw.S, q, lo, q, q, hi, p, q, old.S), So: SBool}, "sorted slice is a permutation (old -> new)")
+	st.assume(T{S: fmt.Sprintf("(forall ((j Int)) (! (=> (or (< j %s) (>= j %s)) (= (select %s j) (select %s j))) :pattern ((select %s j))))", lo, hi, nw.S, old.S, nw.S), So: SBool}, "elements outside the sorted range are unchanged")
 }
 
 func (x *Exec) sliceTerms(st *State, v Val) []T {
